@@ -366,6 +366,20 @@ CHECKS['C13'] = {
     ],
 }
 
+CHECKS['C05'] = {
+    'level': 'exploration',
+    'technique': 'differential property testing on the real server run in-process: (a) generated multi-key routed Messages, per-inbox copy counts against receivers computed clause by clause from the published node sets; (b) one multi-key traversal (GETDATA) against PathMatcher::MatchesPath applied to every node path',
+    'level_text': ('(a) Four sessions on two hosts publish generated node sets, optionally enable reflect-to-self or a default route; 1-8 Messages are sent with 0-3 keys (absolute with literal or wildcard host/session clauses, relative, session level or node levels, equal and different depths), optional filters, forged session fields, interleaved with server steps. Each inbox must hold exactly one copy for each selected session and none otherwise, in per-sender order, naming the true sender. '
+                   '(b) Three publishers (node names incl. literal "a,b" and "a*") and an observer that sends one GETDATA with 1-4 keys over 19 clause forms: the reply\'s node set must equal the set MatchesPath selects over all node paths, with no path reported twice. Held = equal on everything generated.'),
+    'level_note': RH_NOTE + ' The multi-pattern traversal is exercised as ONE multi-key NodePathMatcher traversal, as the server performs it (a union of single-pattern traversals hides the conspiracy guard and the skip-to-next-session logic).',
+    'rule': ('Byte-decoded cases, half routing, half traversal. Non-trivial: the Message / GETDATA carries two keys of equal depth, or keys of different depths (routing), or a key mixing literal and wildcard clause levels (traversal: both the hash-lookup fast path and the wildcard path run). Distinct: hash of the rendered keys.'),
+    'assumptions': ['path clauses are non-empty and patterns do not end in a lone backslash (PutPathString and GetPathDepth count empty clauses differently; exercised only under C07)'],
+    'targets': [
+        {'name': 'c05_routing', 'src': ['harness/C05_routing.cpp'], 'quick_n': 300000, 'thorough_n': 2000000, 'maxlen': 300, 'min_nontrivial': 5000, 'budget': 120,
+         'class_floors': {'mode_routing': 100000, 'mode_traversal': 100000, 'case_two_keys_of_equal_depth': 50000, 'case_keys_of_different_depths': 20000, 'case_with_filters': 10000, 'case_key_mixing_literal_and_wildcard_levels': 20000}},
+    ],
+}
+
 
 def setup():
     t0 = time.time()
